@@ -27,7 +27,7 @@ def run(ctx):
         f = A.fn("wtransport_proto::settings::SettingsBuilder::%s" % m)
         ev = [e for p in nonpanic(walk(f)) for e in event_strs(p) if e.startswith("HashMap::insert(")]
         val = "VarInt::from_u32(%d)" % fixed[m] if m in fixed else "value"
-        ctx.check("C16-R2", "SettingsBuilder::%s" % m, ev == ["HashMap::insert(&self.0.0,SettingId::%s,%s)" % (sid, val)], "SettingsBuilder::%s inserts %s, expected (SettingId::%s, %s)" % (m, ev, sid, val), where(f))
+        ctx.check("C16-R2", "SettingsBuilder::%s" % m, ev == ["HashMap::insert(self.0.0,SettingId::%s,%s)" % (sid, val)], "SettingsBuilder::%s inserts %s, expected (SettingId::%s, %s)" % (m, ev, sid, val), where(f))
     f = A.fn("wtransport::driver::streams::settings::LocalSettingsStream::empty")
     calls = []
     for p in nonpanic(walk(f))[:1]:
@@ -54,7 +54,7 @@ def run(ctx):
     f = A.find1(r"^wtransport::driver::streams::settings::LocalSettingsStream::send_settings::\{closure#0\}$")
     with depth_limit(6):
         ev = [e for p in nonpanic(walk(f)) for e in event_strs(p)]
-    ctx.check("C16-R2", "send_settings writes settings.generate_frame()", any(re.search(r"::write_frame\(.*Settings::generate_frame\(&\*?self\.settings\)\)$", e) for e in ev), "send_settings does not write self.settings.generate_frame()", where(f))
+    ctx.check("C16-R2", "send_settings writes settings.generate_frame()", any(re.search(r"::write_frame\(.*Settings::generate_frame\(self\.settings\)\)$", e) for e in ev), "send_settings does not write self.settings.generate_frame()", where(f))
 
     ctx.rule("C16-R3", "exactly one control stream, opened before the loop: open_uni -> upgrade(new_control) -> send_settings")
     f = A.find1(r"^wtransport::driver::worker::Worker::open_and_send_settings::\{closure#0\}$")
@@ -97,7 +97,7 @@ def run(ctx):
         ctx.check("C16-R4", "sort key (!starts_with(':'), name)", len(sg) == 1 and re.match(r"^return \(Not\(<impl str>::starts_with\(.*,58\)\),", sg[0]) is not None, "Headers::sorted_headers key is not (!name.starts_with(':'), name): %s" % sg, where(f))
     f = A.fn("wtransport_proto::headers::Headers::generate_frame")
     sg = [path_sig(p)[1] for p in nonpanic(walk(f))]
-    ctx.check("C16-R4", "generate_frame = HEADERS(encode(sorted))", len(sg) == 1 and re.match(r"^return Frame::new_headers\(Cow::Owned\(.*Encoder::encode\(Headers::sorted_headers\(&\*self\)\)", sg[0]) is not None, "Headers::generate_frame changed: %s" % sg, where(f))
+    ctx.check("C16-R4", "generate_frame = HEADERS(encode(sorted))", len(sg) == 1 and re.match(r"^return Frame::new_headers\(Cow::Owned\(.*Encoder::encode\(Headers::sorted_headers\(self\)\)", sg[0]) is not None, "Headers::generate_frame changed: %s" % sg, where(f))
     import json as _json
     f = A.fn("wtransport_proto::session::SessionRequest::new")
     body_s = _json.dumps(f.body)
@@ -106,6 +106,9 @@ def run(ctx):
     f = A.fn("wtransport_proto::session::SessionResponse::with_status_code")
     body_s = _json.dumps(f.body)
     ctx.check("C16-R4", "response :status", '"str": ":status"' in body_s, "SessionResponse::with_status_code does not use ':status'", where(f))
+
+    ctx.rule("C16-R7", "frame payloads are written exactly once under partial writes: PutBuffer / PutVarint keep their progress in the future")
+    shared.poll_loops(ctx, "C16-R7")
 
     ctx.rule("C16-R5", "stream preambles and datagram prefix (writers)")
     shared.preamble_writers(ctx, "C16-R5")
